@@ -2,7 +2,7 @@
 From Coq Require Import List NArith Ascii Bool Lia.
 From SV Require Import Lib.Bytes Model.Wire Model.Chan Model.Stream
   Proofs.Stream_basic Proofs.Stream_wrap Proofs.Stream_cb Proofs.Stream_reg Proofs.Stream_fw
-  Proofs.Stream_view Proofs.Stream_flow Proofs.Stream_props Gen.Consts.
+  Proofs.Stream_view Proofs.Stream_flow Proofs.Stream_props Proofs.Stream_assert Gen.Consts.
 Import ListNotations.
 Local Open Scope N_scope.
 
@@ -37,9 +37,12 @@ Print Assumptions c08_error_closes_socket.
    message for a closed flow, a message with an unknown command, a message for a flow
    whose wrapper has gone — none of them raises.  The only exceptions the dispatcher can
    raise are the `assert not self.channels.get(channel)` of CONNECT and an unhandled
-   connect errno inside new_channel.  PARTIAL: that the CONNECT assertion itself never
-   fires (the peer always frees an identifier before it sees its re-use) is the full
-   statement below and is not proved here. *)
+   connect errno inside new_channel (c08_dispatch_no_crash_partial); and in every
+   reachable state in which no frame of an older incarnation has reached a wrapper
+   (w_stale = false — the situation C06 excludes) the CONNECT assertion itself never
+   fires: the peer always frees an identifier before it sees its re-use
+   (c08_connect_assert_never_fires), so an unhandled connect errno is the only way
+   the dispatcher raises (c08_dispatch_no_crash). *)
 Theorem c08_dispatch_no_crash_partial : forall maxc lbs evs w sd o c,
   run (world0 maxc lbs) evs = Ok w ->
   step w (EvDeliver sd o) = Crash c ->
@@ -51,9 +54,22 @@ Proof.
 Qed.
 Print Assumptions c08_dispatch_no_crash_partial.
 
-Definition c08_connect_assert_never_fires_full : Prop :=
-  forall maxc lbs evs w o, run (world0 maxc lbs) evs = Ok w -> w_stale w = false ->
-  step w (EvDeliver Server o) <> Crash CrAssertConnect.
+Theorem c08_connect_assert_never_fires : forall maxc lbs evs w sd o,
+  run (world0 maxc lbs) evs = Ok w -> w_stale w = false ->
+  step w (EvDeliver sd o) <> Crash CrAssertConnect.
+Proof. exact run_connect_assert. Qed.
+Print Assumptions c08_connect_assert_never_fires.
+
+Theorem c08_dispatch_no_crash : forall maxc lbs evs w sd o c,
+  run (world0 maxc lbs) evs = Ok w -> w_stale w = false ->
+  step w (EvDeliver sd o) = Crash c ->
+  c = CrReraise /\ handled_conn (io_conn o) = false.
+Proof.
+  intros maxc lbs evs w sd o c Hrun Hst Hc.
+  destruct (c08_dispatch_no_crash_partial maxc lbs evs w sd o c Hrun Hc) as [->|H]; [|exact H].
+  exfalso. exact (run_connect_assert maxc lbs evs w sd o Hrun Hst Hc).
+Qed.
+Print Assumptions c08_dispatch_no_crash.
 
 (* (5) "No identifier free" ends at most the new flow: the accept is dropped, every
    existing flow and queue is untouched. *)
